@@ -667,4 +667,36 @@ Reg const r_read_chars{"io_read_chars", Kind::exhaustive, "count is 0, equals or
                              fail("io::read_chars|contents", "read_chars returned " + std::to_string(v.size()) + " chars, wrong size or contents");
                          }
                        }};
+
+// ---- ranges whose ELEMENT TYPE differs from the vector's (short[], std::string, float array into
+// raw_vector<int>): like std::vector, construction and insertion convert element by element
+void converting_range_case(std::size_t n, std::size_t pos_, std::size_t kind, bool spare)
+{
+  using rvi = fcppt::container::raw_vector::object<int>;
+  count(n >= 1);
+  std::vector<short> const shorts = [&] { std::vector<short> r; for (std::size_t i = 0; i < n; ++i) r.push_back(static_cast<short>(1000 + 7 * static_cast<int>(i))); return r; }();
+  std::string const chars = std::string("Zebra!").substr(0, n);
+  std::vector<double> const doubles = [&] { std::vector<double> r; for (std::size_t i = 0; i < n; ++i) r.push_back(2.5 + static_cast<double>(i)); return r; }();
+  auto const run = [&](auto const &src, char const *what) {
+    std::vector<int> model{1, 2, 3};
+    rvi v{1, 2, 3};
+    if (spare) { v.reserve(32); }
+    std::size_t const pos = pos_ % 4;
+    model.insert(model.begin() + static_cast<std::ptrdiff_t>(pos), src.begin(), src.end());
+    v.insert(v.begin() + static_cast<std::ptrdiff_t>(pos), src.begin(), src.end());
+    if (v.size() != model.size() || !std::equal(v.begin(), v.end(), model.begin()))
+      fail(std::string("raw_vector|insert-range|source-of-another-element-type|") + what, std::string("inserting ") + std::to_string(src.size()) + " elements of a " + what + " range at position " + std::to_string(pos) + " into raw_vector<int>{1,2,3}" + (spare ? " (spare capacity)" : "") + " differs from std::vector<int>");
+    std::vector<int> const cm(src.begin(), src.end());
+    rvi const cv(src.begin(), src.end());
+    if (cv.size() != cm.size() || !std::equal(cv.begin(), cv.end(), cm.begin()))
+      fail(std::string("raw_vector|range-constructor|source-of-another-element-type|") + what, std::string("raw_vector<int> constructed from ") + std::to_string(src.size()) + " elements of a " + what + " range differs from std::vector<int>");
+  };
+  if (kind % 3 == 0) run(shorts, "short");
+  else if (kind % 3 == 1) run(chars, "char");
+  else run(doubles, "double");
+}
+Reg const r_conv_range{"raw_vector_converting_ranges", Kind::exhaustive, "a non-empty source range",
+                       [] { for (i64 n = 0; n <= 6; ++n) for (i64 p = 0; p < 4; ++p) for (i64 k = 0; k < 3; ++k) for (i64 sp = 0; sp < 2; ++sp) { cur4(n, p, k, sp); converting_range_case(static_cast<std::size_t>(n), static_cast<std::size_t>(p), static_cast<std::size_t>(k), sp != 0); } },
+                       [](Ints const &c) { converting_range_case(static_cast<std::size_t>(static_cast<u64>(c.at(0)) % 7), static_cast<std::size_t>(static_cast<u64>(c.at(1)) % 4), static_cast<std::size_t>(static_cast<u64>(c.at(2)) % 3), c.at(3) % 2 != 0); },
+                       [](Ints const &c) { static char const *const k[] = {"short", "char", "double"}; return "raw_vector<int>{1,2,3}: insert at " + std::to_string(static_cast<u64>(c.at(1)) % 4) + " / construct from " + std::to_string(static_cast<u64>(c.at(0)) % 7) + " elements of a contiguous " + k[static_cast<u64>(c.at(2)) % 3] + " range" + (c.at(3) % 2 != 0 ? " (spare capacity)" : ""); }};
 }
